@@ -64,10 +64,10 @@ def staged_write_path(
         staging_path = pathlib.Path(staging_path)
     try:
         yield staging_path
+        os.replace(staging_path, path)
     except BaseException:
         _try_remove(staging_path)
         raise
-    os.replace(staging_path, path)
 
 
 @contextmanager
